@@ -10,6 +10,7 @@ package transformers
 // Oracles are list manipulations written from the statement / the verb's usage text.
 
 import (
+	"github.com/johnkerl/miller/v6/pkg/bifs"
 	"github.com/johnkerl/miller/v6/pkg/cli"
 	"github.com/johnkerl/miller/v6/pkg/mlrval"
 	"github.com/johnkerl/miller/v6/pkg/types"
@@ -520,4 +521,64 @@ func c02SameValue(a, b *mlrval.Mlrval) bool {
 		return true
 	}
 	return a.String() == b.String()
+}
+
+// C16 at the verb level — the sec2gmt and sec2gmtdate verbs equal the functions applied to the named
+// fields and leave non-numeric values unchanged; strftime with fractional-second formats agrees with
+// sec2gmt on the same instant, negative and far-away times included.  Instants: a symbolic offset in
+// one of a palette of windows (enumerated by the solver), as int, as float with a quarter fraction,
+// or the field is text / empty.
+func VerifC16_sec2gmt_verbs_equal_the_functions() {
+	bases := []int64{-30, 951782370, -2203891230, 32503680000 - 30, -11670998430, 253402300740, 9223372036 - 30}
+	b := bases[verifChoice("window", len(bases))]
+	off := verifInt64("offset")
+	verifAssume(off >= 0 && off < 60)
+	x := verifConcretize(b+off, 64)
+	var field *mlrval.Mlrval
+	kind := verifChoice("kind", 5)
+	switch kind {
+	case 0:
+		field = mlrval.FromInt(x)
+	case 1:
+		field = mlrval.FromFloat(float64(x) + 0.25)
+	case 2:
+		field = mlrval.FromFloat(float64(x) + 0.75)
+	case 3:
+		field = mlrval.FromString("abc")
+	case 4:
+		field = mlrval.FromDeferredType("")
+	}
+	verb := verifChoice("verb", 4)
+	rec := mlrval.NewMlrmapAsRecord()
+	rec.PutReference("t", field.Copy())
+	rec.PutReference("other", mlrval.FromInt(x))
+	var argv []string
+	var want *mlrval.Mlrval
+	switch verb {
+	case 0:
+		argv, want = []string{"sec2gmt", "t"}, bifs.BIF_sec2gmt_unary(field)
+	case 1:
+		argv, want = []string{"sec2gmt", "-3", "t"}, bifs.BIF_sec2gmt_binary(field, mlrval.FromInt(3))
+	case 2:
+		argv, want = []string{"sec2gmtdate", "t"}, bifs.BIF_sec2gmtdate(field)
+	case 3:
+		argv, want = []string{"sec2gmt", "-6", "t,nosuch"}, bifs.BIF_sec2gmt_binary(field, mlrval.FromInt(6))
+	}
+	out := verifPutRunAny(verifVerb(argv...), rec)
+	verifAssert(len(out) == 1, "C16/verbs/one-record")
+	if len(out) == 1 {
+		got := out[0].Get("t")
+		verifAssert(got != nil && got.String() == want.String(), "C16/verbs/verb-equals-the-function-on-the-named-field")
+		if kind >= 3 {
+			verifAssert(got != nil && got.String() == field.String(), "C16/verbs/non-numeric-left-unchanged")
+		}
+		o := out[0].Get("other")
+		verifAssert(o != nil && o.String() == mlrval.FromInt(x).String(), "C16/verbs/other-fields-untouched")
+	}
+	if kind == 1 || kind == 2 {
+		a := bifs.BIF_strftime(field, mlrval.FromString("%Y-%m-%dT%H:%M:%3SZ"))
+		b3 := bifs.BIF_sec2gmt_binary(field, mlrval.FromInt(3))
+		verifAssert(a.String() == b3.String(), "C16/strftime/fractional-seconds-agree-with-sec2gmt")
+	}
+	verifReach("C16/verbs/end")
 }
